@@ -266,6 +266,8 @@ class Converter:
         self._nextvar = 0
         self._used_vars = set()
         self._locals: list[dict[str, LocalSymValue]] = [{}]
+        # Names assigned anywhere in the body of the function(s) being translated (innermost last).
+        self._assigned_in_function: list[set[str]] = []
 
     def _source_of(self, node: ast.AST) -> sourceinfo.SourceInfo:
         return sourceinfo.SourceInfo(
@@ -327,6 +329,14 @@ class Converter:
         for scope in reversed(self._locals):
             if name in scope:
                 return scope[name]
+        if self._assigned_in_function and name in self._assigned_in_function[-1]:
+            # A name that is assigned somewhere in the function is local to it (Python scoping):
+            # reading it before the assignment never denotes a global of the same name.
+            if raise_exception:
+                raise ValueError(
+                    info.msg(f"Unbound name: {name}. (local variable referenced before assignment)")
+                )
+            return None
         if name in self.globals:
             return self.globals[name]
         if raise_exception:
@@ -1514,8 +1524,19 @@ class Converter:
         """Translate a function definition, including the signature and its body."""
         logger.debug("Converter:_translate_function_def_common:%s", fn.name)
         _ = self._translate_function_signature_common(fn)
-        for i, s in enumerate(fn.body):
-            self._translate_stmt(s, index_of_stmt=i)
+        assigned: set[str] = set()
+        if self._analyzer is not None:
+            try:
+                assigned = self._analyzer.assigned_vars(fn.body)
+            except ValueError:
+                # An unsupported statement: reported with its position when it is translated.
+                assigned = set()
+        self._assigned_in_function.append(assigned)
+        try:
+            for i, s in enumerate(fn.body):
+                self._translate_stmt(s, index_of_stmt=i)
+        finally:
+            self._assigned_in_function.pop()
         return self._current_fn
 
     def translate_function_def(self, stmt: ast.FunctionDef) -> irbuilder.IRFunction:
